@@ -24,8 +24,9 @@
 (*                   inside a frame                                        *)
 (* Items of the input are integers: d >= 0 a literal digit, -n an opaque   *)
 (* run of n body bytes (trace spec only: bodies of big frames).            *)
+(*   ReadTimeout     a read fails inside a frame: the stream is lost        *)
 (* Deviation switches (non-vacuity): SplitWrite, NoMaxCheck, NoMinCheck,   *)
-(* NoReadFull.                                                             *)
+(* NoReadFull, ResumeFresh.                                                *)
 (***************************************************************************)
 EXTENDS Integers, Sequences, FiniteSets, TLC, Json
 
@@ -36,7 +37,7 @@ CONSTANTS
     Lens,         \* message lengths a writer may choose
     MinAccepts,   \* subset of BOOLEAN: is a length of exactly MIN delivered? (outside the property)
     MaxCut,       \* Close may drop up to MaxCut trailing digits
-    SplitWrite, NoMaxCheck, NoMinCheck, NoReadFull,    \* deviations
+    SplitWrite, NoMaxCheck, NoMinCheck, NoReadFull, ResumeFresh,    \* deviations
     WithHist, Export
 
 VARIABLES
@@ -50,9 +51,10 @@ VARIABLES
     pos,          \* digits taken from the stream so far
     delivered,    \* sequence of [len, body]
     outcome,      \* "run" | "err" | "eof"
+    tmo,          \* a read error (deadline) struck inside a frame
     hist
 
-vars == <<wire, wst, wlen, written, closed, dropped, minAcc, rd, pos, delivered, outcome, hist>>
+vars == <<wire, wst, wlen, written, closed, dropped, minAcc, rd, pos, delivered, outcome, tmo, hist>>
 
 MAX == B * B - 1
 Hdr(n) == <<(n \div B) % B, n % B>>
@@ -107,7 +109,7 @@ H(e) == hist' = IF WithHist THEN Append(hist, e) ELSE hist
 Init ==
     /\ wire = <<>> /\ wst = [w \in Writers |-> "idle"] /\ wlen \in [Writers -> Lens]
     /\ written = <<>> /\ closed = FALSE /\ dropped = 0 /\ minAcc \in MinAccepts
-    /\ rd = Fresh /\ pos = 0 /\ delivered = <<>> /\ outcome = "run" /\ hist = <<>>
+    /\ rd = Fresh /\ pos = 0 /\ delivered = <<>> /\ outcome = "run" /\ tmo = FALSE /\ hist = <<>>
 
 WriteFrame(w) ==
     /\ wst[w] = "idle" /\ ~closed
@@ -121,20 +123,20 @@ WriteFrame(w) ==
        ELSE /\ wire' = Append(wire, Hdr(n) \o Body(w, n)) /\ wst' = [wst EXCEPT ![w] = "done"]
             /\ written' = Append(written, [w |-> w, n |-> n])
             /\ H([a |-> "W", w |-> w, n |-> n, ok |-> TRUE])
-    /\ UNCHANGED <<wlen, closed, dropped, minAcc, rd, pos, delivered, outcome>>
+    /\ UNCHANGED <<wlen, closed, dropped, minAcc, rd, pos, delivered, outcome, tmo>>
 
 WriteRest(w) ==
     /\ wst[w] = "half" /\ ~closed
     /\ wire' = Append(wire, Body(w, wlen[w])) /\ wst' = [wst EXCEPT ![w] = "done"]
     /\ written' = Append(written, [w |-> w, n |-> wlen[w]])
-    /\ UNCHANGED <<wlen, closed, dropped, minAcc, rd, pos, delivered, outcome, hist>>
+    /\ UNCHANGED <<wlen, closed, dropped, minAcc, rd, pos, delivered, outcome, tmo, hist>>
 
 Close(c) ==
     /\ ~closed /\ \A w \in Writers : wst[w] # "half"
     /\ c <= Len(Flat(wire)) - pos
     /\ closed' = TRUE /\ dropped' = c
     /\ H([a |-> "C", cut |-> c])
-    /\ UNCHANGED <<wire, wst, wlen, written, minAcc, rd, pos, delivered, outcome>>
+    /\ UNCHANGED <<wire, wst, wlen, written, minAcc, rd, pos, delivered, outcome, tmo>>
 
 Avail == Len(Stream) - pos
 
@@ -151,21 +153,37 @@ ReadChunk(k) ==
           ELSE rd' = r2
        /\ outcome' = IF r2.st = "err" THEN "err" ELSE outcome
     /\ H([a |-> "R", k |-> k])
-    /\ UNCHANGED <<wire, wst, wlen, written, closed, dropped, minAcc, delivered>>
+    /\ UNCHANGED <<wire, wst, wlen, written, closed, dropped, minAcc, delivered, tmo>>
 
 Deliver ==
     /\ outcome = "run" /\ rd.st = "full"
     /\ delivered' = Append(delivered, [len |-> rd.len, body |-> rd.body])
     /\ rd' = AfterDeliver(rd, minAcc)
     /\ H([a |-> "D", len |-> rd.len])
-    /\ UNCHANGED <<wire, wst, wlen, written, closed, dropped, minAcc, pos, outcome>>
+    /\ UNCHANGED <<wire, wst, wlen, written, closed, dropped, minAcc, pos, outcome, tmo>>
 
 ReadEOF ==
     /\ outcome = "run" /\ closed /\ Avail = 0 /\ rd.st \in {"hdr", "body"}
     /\ outcome' = IF rd.st = "hdr" /\ rd.h = <<>> THEN "eof" ELSE "err"
-    /\ UNCHANGED <<wire, wst, wlen, written, closed, dropped, minAcc, rd, pos, delivered, hist>>
+    /\ UNCHANGED <<wire, wst, wlen, written, closed, dropped, minAcc, rd, pos, delivered, tmo, hist>>
+
+\* A read fails (deadline) while the reader is inside a frame - part of the header or of the body
+\* is already consumed. The reader is not resumable: the stream is lost, an error is the only
+\* outcome (conn_traditional.go / reuse.go readLoop close the connection on any read error).
+\* Deviation ResumeFresh: the caller just calls the reader again, which starts a NEW frame in the
+\* middle of the old one.
+MidFrame(r) == r.st = "body" \/ (r.st = "hdr" /\ r.h # <<>>)
+ReadTimeout ==
+    /\ outcome = "run" /\ MidFrame(rd) /\ ~tmo
+    /\ IF ResumeFresh
+       THEN rd' = Fresh /\ UNCHANGED outcome
+       ELSE outcome' = "err" /\ UNCHANGED rd
+    /\ tmo' = TRUE
+    /\ H([a |-> "T"])
+    /\ UNCHANGED <<wire, wst, wlen, written, closed, dropped, minAcc, pos, delivered>>
 
 Next ==
+    \/ ReadTimeout
     \/ \E w \in Writers : WriteFrame(w) \/ WriteRest(w)
     \/ \E c \in 0..MaxCut : Close(c)
     \/ \E k \in 1..(MAX + 2) : ReadChunk(k)
@@ -204,7 +222,8 @@ MalformedIsError ==
     /\ \A i \in 1..Len(delivered) : delivered[i].len >= MIN /\ (delivered[i].len = MIN => minAcc)
     /\ (outcome = "eof") => /\ closed /\ pos = Len(Stream) /\ rd.st = "hdr" /\ rd.h = <<>>
                             /\ (dropped = 0 => Len(delivered) = Len(written))
-    /\ (outcome = "err") => \/ rd.st = "err" /\ Len(rd.h) = 2 /\ HdrVal(rd.h) <= MIN
+    /\ (outcome = "err") => \/ tmo /\ MidFrame(rd)
+                            \/ rd.st = "err" /\ Len(rd.h) = 2 /\ HdrVal(rd.h) <= MIN
                             \/ closed /\ pos = Len(Stream) /\ (rd.h # <<>> \/ rd.st = "body")
 
 C16Inv == RoundTrip /\ OverMaxRefused /\ OneWriteOneFrame /\ MalformedIsError
